@@ -80,7 +80,7 @@ REQUIRED_CLASSES = [
     'sense_clockwise', 'sense_anticlockwise', 'ratio_subharmonic', 'ratio_one', 'ratio_harmonic',
     'slit_spans_tdc', 'slit_negative_begin', 'opening_before_pulse', 'opening_straddles_pulse_time',
     'phase_multi_turn', 'unit_rad', 'unit_kHz', 'unit_per_min', 'dtype_int64',
-    'direct_ok', 'twin_from_same_variables_ok', 'fdc_npulses_1_ok', 'fdc_npulses_ge2_run',
+    'direct_ok', 'twin_from_same_variables_ok', 'replaced_frequency_ok', 'fdc_npulses_1_ok', 'fdc_npulses_ge2_run',
     'ratio_rejected_ValueError', 'ratio_near_integer_accepted',
     'overlap_plain_rejected', 'begin_gt_end_rejected', 'overlap_tdc_case_run',
     'fdc_mixed_frequency_units_run', 'scratch_label_differential_identical',
@@ -158,6 +158,13 @@ def cases(tier):
             for name in sets:
                 out.append({'kind': 'open', 'ratio': list(ratio), 'sense': sense, 'slits': name, 'amode': 'deg',
                             'funit': 'Hz', 'punit': 'Hz', 'pulse': 14.0, 'dtype': 'int64', **inner})
+    # one integer-typed angle (deg) combined with a float angle in the other unit (rad)
+    for ratio in [(1, 1), (2, 1), (1, 2)]:
+        for sense in SENSES:
+            for name in sets:
+                for amode in ('intbeam', 'intphase'):
+                    out.append({'kind': 'open', 'ratio': list(ratio), 'sense': sense, 'slits': name, 'amode': amode,
+                                'funit': 'Hz', 'punit': 'Hz', 'pulse': 14.0, 'dtype': 'float64', **inner})
     for base in RATIO_BASES:
         for sense in SENSES:
             for funit, punit in FUNITS['thorough']:
@@ -201,13 +208,17 @@ def _freq_value(hz: float, unit: str) -> float:
 
 
 def build(slits_deg, *, beam, phase, amode, freq_value, funit, dtype='float64'):
-    su, bu, pu = {'deg': ('deg',) * 3, 'rad': ('rad',) * 3, 'mixed': ('rad', 'deg', 'rad')}[amode]
+    su, bu, pu = {'deg': ('deg',) * 3, 'rad': ('rad',) * 3, 'mixed': ('rad', 'deg', 'rad'),
+                  'intbeam': ('deg', 'deg', 'rad'), 'intphase': ('deg', 'rad', 'deg')}[amode]
     fv = int(freq_value) if dtype == 'int64' else float(freq_value)
+    # 'intbeam' / 'intphase': one integer-typed angle in degrees next to a float angle in radians
+    bdt = 'int64' if amode == 'intbeam' else dtype
+    pdt = 'int64' if amode == 'intphase' else dtype
     return DiskChopper(
         axle_position=sc.vector([3.0, 0.0, 4.0], unit='m'),
         frequency=sc.scalar(fv, unit=funit, dtype=dtype),
-        beam_position=_angles([beam], bu, dtype, False),
-        phase=_angles([phase], pu, dtype, False),
+        beam_position=_angles([beam], bu, bdt, False),
+        phase=_angles([phase], pu, pdt, False),
         slit_begin=_angles([b for b, _ in slits_deg], su, dtype, True),
         slit_end=_angles([e for _, e in slits_deg], su, dtype, True),
     )
@@ -398,6 +409,30 @@ def check_config(rec, case, slits_deg, *, beam, phase, amode, freq_value, funit,
         else:
             if judge(rec, 'DiskChopper.time_offset_open_close/twin_from_same_variables', disk2, o2, c2, t_pulse, sub0) is not None:
                 rec.cls('twin_from_same_variables_ok')
+        # a chopper derived from the used one with dataclasses.replace (twice the speed): it must behave like a freshly
+        # built chopper of that speed (rotations per pulse are a function of the new frequency, not of the old object)
+        import dataclasses
+
+        rec.states += 1
+        rec.transitions += 2
+        try:
+            fast = dataclasses.replace(ch, frequency=ch.frequency * 2)
+            fv3 = fast.frequency.value.item() if hasattr(fast.frequency.value, 'item') else fast.frequency.value
+            disk3 = _disk(slits_deg, beam, phase, fv3, funit)
+            o3, c3 = _seconds(fast.time_offset_open(pulse_frequency=pf)), _seconds(fast.time_offset_close(pulse_frequency=pf))
+        except ValueError as e:
+            r3 = abs(Fr(ch.frequency.value.item() if hasattr(ch.frequency.value, 'item') else ch.frequency.value) * 2 * UNIT_HZ[funit]) * t_pulse
+            if r3.denominator == 1 or r3.numerator == 1:
+                rec.viol('DiskChopper.time_offset_open_close/replaced_frequency', 'in_phase_ratio_rejected', f'{str(e)[:100]}', **sub0)
+            else:
+                rec.cls('replaced_frequency_out_of_phase_rejected')  # e.g. 2 x 1/3: rightly refused
+        else:
+            ratio3 = abs(Fr(fv3) * UNIT_HZ[funit]) * t_pulse
+            n3 = max(round(ratio3), 1)
+            if judge(rec, 'DiskChopper.time_offset_open_close/replaced_frequency', disk3, o3, c3, t_pulse, sub0) is not None and len(o3) == len(slits_deg) * (n3 + 1):
+                rec.cls('replaced_frequency_ok')
+            elif len(o3) != len(slits_deg) * (n3 + 1):
+                rec.viol('DiskChopper.time_offset_open_close/replaced_frequency', 'count', f'{len(o3)} pairs reported after dataclasses.replace(frequency x2), expected {len(slits_deg)}*({n3}+1)', **sub0)
 
     site = 'Chopper.from_disk_chopper'
     for npulses in npulses_list:
